@@ -991,6 +991,9 @@ fn do_xargs(args: &[&str]) -> Result<CommandResult, XargsError> {
                 .short('i')
                 .num_args(0..=1)
                 .require_equals(true)
+                // gives a value-less -i/--replace a position on the command line, which
+                // normalize_options needs to find the option given last
+                .default_missing_value("{}")
                 .value_parser(clap::value_parser!(String))
                 .value_name("R")
                 .help("If R is specified, the same as -I R; otherwise, the same as -I {}"),
